@@ -60,7 +60,8 @@ Definition pkind_eqb (a b : pkind) : bool :=
   | K_assert, K_assert | K_debug_assert, K_debug_assert | K_todo, K_todo | K_index, K_index
   | K_index_const, K_index_const | K_buf_advance, K_buf_advance | K_buf_copy, K_buf_copy
   | K_buf_get, K_buf_get | K_split, K_split | K_arith, K_arith | K_shift, K_shift | K_cast, K_cast
-  | K_headermap, K_headermap | K_capacity, K_capacity => true
+  | K_headermap, K_headermap | K_capacity, K_capacity | K_buf_put, K_buf_put | K_ilog, K_ilog
+  | K_slice_move, K_slice_move | K_from_static, K_from_static => true
   | _, _ => false
   end.
 
